@@ -38,7 +38,10 @@ class C07(Prop):
 
     def impl(self, case):
         try:
-            snaxrun.parse(case["src"]).verify()
+            _m = snaxrun.parse(case["src"])
+            _m.verify()
+            if not ac.well_formed_regions(_m):
+                return {"invalid_input": "region without matching yield"}
         except Exception as e:
             return {"invalid_input": type(e).__name__}
         traced = trace_states(case["src"])
